@@ -221,7 +221,7 @@ def list_to_3d_slice(
         raise ValueError("Fitting range should have 6 values")
 
 
-def slice_to_range(data: slice) -> range:
+def slice_to_range(data: slice, size: int | None = None) -> range:
     """Convert a slice to a range.
 
     Examples
@@ -240,6 +240,11 @@ def slice_to_range(data: slice) -> range:
     """
     if data.step is not None:
         raise ValueError("Cannot use parameter 'step' in the slice object.")
+
+    if data.stop is None and size is not None:
+        # Open-ended slice in a dimension with 'size' elements
+        data = slice(data.start, size)
+
     if data.stop is None:
         raise ValueError("Missing 'stop' parameter in the slice object")
 
